@@ -168,6 +168,9 @@ class Address:
                     self.addrType = Address.remoteStationAddr
                     self.addrNet = net_addr
 
+                elif global_broadcast:
+                    raise ValueError("station address with wildcard network")
+
                 if local_addr:
                     if _debug: Address._debug("    - simple address")
                     if local_addr.startswith("0x"):
